@@ -424,6 +424,12 @@ class Converged:
                     Zs[0] -= sum(Zs) + 1 + k % 2
                 out.append(dict(a=a.tolist(), frac=rng.uniform(0, 1, (nat, 3)).tolist(), Z=Zs))
                 continue
+            elif self.family == "many_atoms":
+                # 9 to 13 atoms at generic positions (no inversion centre): any branch of the sum that depends on the number of atoms is exercised
+                a = np.diag(rng.uniform(8, 12, 3)) + rng.uniform(-0.9, 0.9, (3, 3))
+                nat = 9 + 2 * (k % 3)
+                out.append(dict(a=a.tolist(), frac=rng.uniform(0, 1, (nat, 3)).tolist(), Z=[int(z) for z in rng.integers(1, 5, nat)]))
+                continue
             elif self.family == "madelung":
                 return [dict(name="NaCl", a=(np.array([[0, .5, .5], [.5, 0, .5], [.5, .5, 0]]) * 2).tolist(), frac=[[0, 0, 0], [.5, .5, .5]], Z=[1, -1], ref=-1.747564594633),
                         dict(name="CsCl", a=np.eye(3).tolist(), frac=[[0, 0, 0], [.5, .5, .5]], Z=[1, -1], ref=-1.762674773070 / (np.sqrt(3) / 2)),
@@ -441,7 +447,7 @@ class Converged:
         if ref is None:
             ref = ewald_reference(a, pos, c["Z"])
         err = abs(e - ref) / max(1.0, abs(ref))
-        if self.family in ("nearly_equal_pairs", "uncharged_atom_in_the_list"):
+        if self.family in ("nearly_equal_pairs", "uncharged_atom_in_the_list", "many_atoms"):
             # and the atoms listed in the reverse order (which of two nearly equal pairs comes first must not matter)
             e_rev = _native_E(a, pos[::-1], list(c["Z"])[::-1])
             err = max(err, abs(e_rev - e) / max(1.0, abs(ref)))
@@ -520,7 +526,7 @@ register(Obligation(name="C10.get_Eewald.converged_sum.torch_backend", prop=PROP
                     run=ConvergedTorch("triclinic"), budget={"quick": 300, "thorough": 1200},
                     doc="BOUNDED: get_Eewald under the Torch backend vs the independent converged sum (triclinic cells, Madelung structures) and under a reversed atom order"))
 
-for _fam in ("orthorhombic", "triclinic", "skewed", "madelung", "nearly_equal_pairs", "uncharged_atom_in_the_list", "negative_net_charge"):
+for _fam in ("orthorhombic", "triclinic", "skewed", "madelung", "nearly_equal_pairs", "uncharged_atom_in_the_list", "negative_net_charge", "many_atoms"):
     register(Obligation(name=f"C10.get_Eewald.converged_sum.{_fam}", prop=PROP, engine="B", bounded=True, functions=["eminus.energies:get_Eewald"],
                         run=Converged(_fam), budget={"quick": 300, "thorough": 1200},
                         doc=f"BOUNDED: default-parameter get_Eewald vs an independent converged Ewald sum ({_fam} cells, random bases and charges)"))
